@@ -2,12 +2,12 @@
 (* The input scanner: walk of the RDH chain with filter, payload load/skip,    *)
 (* truncated input.  Intended behaviour (the properties C03/C14/C18 hold by    *)
 (* construction and are checked as invariants).                                *)
-EXTENDS Naturals, Sequences, FiniteSets, TLC, Json
+EXTENDS Naturals, Sequences, FiniteSets, TLC, Json, SequencesExt
 
-CONSTANTS MaxLen,
+CONSTANTS Lens,          \* stream lengths explored (packets)
           Pkts,          \* packet kinds [link, fee, size]: link id, FEE id, size (offset to next = memory size): 64 = no payload; any multiple of 16 up to 10064 otherwise
           Filters,       \* filter options explored: records [k, v], k = "none" | "link" (--filter-link v) | "fee" (--filter-fee v) | "stave" (--filter-its-stave, v = 64 x layer + stave)
-          CutAll         \* TRUE: the input may end at every boundary of interest; FALSE: complete inputs only
+          CutMode        \* "all": the input may end at every boundary of interest; "none": complete inputs only; "tail": complete, or ending in the last packet
 Pkt == Pkts
 NoFilter == [k |-> "none", v |-> 0]
 \* which packets a filter selects (doc: link id / FEE id / layer and stave of the FEE id, whatever the other FEE-id bits)
@@ -20,14 +20,15 @@ VARIABLES stream, filter, skip, src, cut,        \* the case (chosen in Init)
           i, out, seen, filt, pay, errs, done     \* the run
 vars == << stream, filter, skip, src, cut, i, out, seen, filt, pay, errs, done >>
 
-RECURSIVE OffOf(_, _)
-OffOf(s, k) == IF k = 1 THEN 0 ELSE OffOf(s, k - 1) + s[k - 1].size
+\* byte offset of the k-th packet (a fold: streams of several hundred packets are explored, too)
+OffOf(s, k) == FoldLeft(LAMBDA acc, p : acc + p.size, 0, SubSeq(s, 1, k - 1))
 Total(s) == IF s = << >> THEN 0 ELSE OffOf(s, Len(s)) + s[Len(s)].size
-Streams == UNION {[1..n -> Pkt] : n \in 1..MaxLen}
-Cuts(s) == {Total(s)} \cup UNION {{OffOf(s, k) + 32, OffOf(s, k) + 64} \cup (IF s[k].size > 64 THEN {OffOf(s, k) + 72} ELSE {}) : k \in 1..Len(s)}
+Streams == UNION {[1..n -> Pkt] : n \in Lens}
+CutsIn(s, K) == {Total(s)} \cup UNION {{OffOf(s, k) + 32, OffOf(s, k) + 64} \cup (IF s[k].size > 64 THEN {OffOf(s, k) + 72} ELSE {}) : k \in K}
+Cuts(s) == CASE CutMode = "all" -> CutsIn(s, 1..Len(s)) [] CutMode = "tail" -> CutsIn(s, {Len(s)}) [] CutMode = "none" -> {Total(s)}
 
 Init == /\ stream \in Streams /\ filter \in Filters /\ skip \in BOOLEAN /\ src \in {"file", "pipe"}
-        /\ cut \in (IF CutAll THEN Cuts(stream) ELSE {Total(stream)}) /\ cut >= 64        \* (a first RDH is present; shorter inputs are the C18 boundary cases)
+        /\ cut \in Cuts(stream) /\ cut >= 64        \* (a first RDH is present; shorter inputs are the C18 boundary cases)
         /\ i = 1 /\ out = << >> /\ seen = 0 /\ filt = 0 /\ pay = 0 /\ errs = << >> /\ done = FALSE
 
 Avail(k) == cut - OffOf(stream, k)
